@@ -22,6 +22,8 @@ func init() {
 			ruleGlobals(c, "R1")
 			ruleGlobalsDoNotEscape(c, "R2")
 			ruleGlobalsNotSharedIntoInstances(c, "R2b")
+			rulePackageMutexPairing(c, "R2c")
+			ruleClosuresShareNothing(c, "R2d")
 			rulePool(c, "R3")
 		},
 	})
@@ -370,6 +372,7 @@ func rulePool(c *Ctx, rule string) {
 	c.R.Rule(c.R.Property+"."+rule+"b", 1, "a context obtained from the pool always starts empty: reset on every path out of NewContext")
 	c.R.Rule(c.R.Property+"."+rule+"c", 4, "Reset covers every field of Context")
 	c.R.Rule(c.R.Property+"."+rule+"d", 4, "no use of a context after its release and no escape of it in the ServeHTTP methods")
+	c.R.Rule(c.R.Property+"."+rule+"e", 1, "nothing touches a context after it was put back into the pool")
 	// find the pool variable
 	var pool *ssa.Global
 	tp := c.P.SPkgs[a.TypesPkg.Path()]
@@ -388,32 +391,69 @@ func rulePool(c *Ctx, rule string) {
 	newCtx := c.P.MustFunc("types.NewContext")
 	destroy := c.P.MustFunc("types.(*Context).Destroy")
 	reset := c.P.MustFunc("types.(*Context).Reset")
-	// (a) ownership
+	// (a) ownership: the pool is only ever used as the receiver of Get / Put (wherever those sites are), and only
+	// contexts are put into it
+	isGetPut := func(in ssa.Instruction) (string, *ssa.CallCommon) {
+		if call, ok := calleeNamed(in, "sync.(*Pool).Get"); ok {
+			return "Get", call
+		}
+		if call, ok := calleeNamed(in, "sync.(*Pool).Put"); ok {
+			return "Put", call
+		}
+		return "", nil
+	}
+	isPoolValue := func(v ssa.Value) bool {
+		if v == ssa.Value(pool) {
+			return true
+		}
+		if u, ok := v.(*ssa.UnOp); ok && u.X == ssa.Value(pool) {
+			return true
+		}
+		return false
+	}
+	var getSites, putSites []ssa.Instruction
 	for _, f := range c.libFuncs() {
 		an.AllInstrs(f, func(in ssa.Instruction) {
-			uses := false
-			for _, op := range in.Operands(nil) {
-				if *op == ssa.Value(pool) {
-					uses = true
+			if kind, call := isGetPut(in); call != nil && len(call.Args) > 0 && isPoolValue(call.Args[0]) {
+				if kind == "Get" {
+					getSites = append(getSites, in)
+				} else {
+					putSites = append(putSites, in)
 				}
-			}
-			if !uses {
+				c.R.Add(rule+"a", c.fk(f), "uses:types."+pool.Name(), c.pos(in), true, "pool."+kind)
 				return
 			}
-			ok := f == newCtx || f == destroy || isInitFunc(f)
-			c.R.Add(rule+"a", c.fk(f), "uses:types."+pool.Name(), c.pos(in), ok, ifelse(ok, "pool used by its owner", "the context pool is used outside NewContext/Destroy: a second Get/Put site can hand out a context that is not reset or still in use"))
+			if u, ok := in.(*ssa.UnOp); ok && u.X == ssa.Value(pool) {
+				// the load itself: judged at its users
+				for _, r := range *u.Referrers() {
+					if _, call := isGetPut(r); call == nil || call.Args[0] != ssa.Value(u) {
+						c.R.Add(rule+"a", c.fk(f), "uses:types."+pool.Name(), c.pos(r), isInitFunc(f), ifelse(isInitFunc(f), "initialisation", "the context pool itself is handed on or stored: Get/Put sites the analysis cannot see can hand out a context that is not reset or still in use"))
+					}
+				}
+				return
+			}
+			for _, op := range in.Operands(nil) {
+				if *op == ssa.Value(pool) {
+					c.R.Add(rule+"a", c.fk(f), "uses:types."+pool.Name(), c.pos(in), isInitFunc(f), ifelse(isInitFunc(f), "initialisation", "the context pool variable is reassigned or its address taken outside initialisation"))
+				}
+			}
 		})
 	}
-	an.AllInstrs(destroy, func(in ssa.Instruction) {
-		if call, ok := calleeNamed(in, "sync.(*Pool).Put"); ok {
-			arg := call.Args[1]
-			if mi, isMI := arg.(*ssa.MakeInterface); isMI {
-				arg = mi.X
-			}
-			ok := an.AP(arg) == "recv"
-			c.R.Add(rule+"a", c.fk(destroy), "put:arg="+an.AP(arg), c.pos(in), ok, ifelse(ok, "only the receiver *Context is put back", "a value other than the context itself is put into the pool"))
+	putArg := func(in ssa.Instruction) ssa.Value {
+		arg := an.CallOf(in).Args[1]
+		if mi, isMI := arg.(*ssa.MakeInterface); isMI {
+			arg = mi.X
 		}
-	})
+		return arg
+	}
+	for _, in := range putSites {
+		arg := putArg(in)
+		ok := isPtrToNamed(arg.Type(), a.ContextT)
+		c.R.Add(rule+"a", c.fk(in.Parent()), "put:arg-is-context", c.pos(in), ok, ifelse(ok, "only a *Context is put back ("+an.AP(arg)+")", "a value that is not a *Context is put into the pool: the next NewContext panics on its type assertion"))
+	}
+	if len(getSites) == 0 || len(putSites) == 0 {
+		an.Fatalf("UNRESOLVED anchor: the context pool has %d Get and %d Put sites", len(getSites), len(putSites))
+	}
 	// (b) reset after get, (c) the reset covers every field — through helpers: cleared(f, param) = the Context
 	// fields f zeroes on that parameter in its entry block, directly or through a callee
 	ctxS := a.ContextT.Underlying().(*types.Struct)
@@ -477,35 +517,202 @@ func rulePool(c *Ctx, rule string) {
 		}
 		return true
 	}
-	an.AllInstrs(newCtx, func(in ssa.Instruction) {
-		if _, ok := calleeNamed(in, "sync.(*Pool).Get"); !ok {
-			return
+	// raw(f): f can return a pooled context that has not been completely reset
+	resetBlock := func(ap string) func(t ssa.Instruction) bool {
+		return func(t ssa.Instruction) bool {
+			call, ok := t.(*ssa.Call)
+			if !ok {
+				return false
+			}
+			g := an.StaticCallee(&call.Call)
+			if g == nil {
+				return false
+			}
+			for ai, arg := range an.CallArgs(&call.Call) {
+				if an.AP(arg) == ap && clearsAll(g, ai) {
+					return true
+				}
+			}
+			return false
 		}
-		got := an.AP(in.(ssa.Value))
-		path := (&an.Query{
-			Target: func(t ssa.Instruction) bool { _, ok := t.(*ssa.Return); return ok },
-			Block: func(t ssa.Instruction) bool {
-				call, ok := t.(*ssa.Call)
+	}
+	raw := map[*ssa.Function][]an.Point{} // witness path
+	isSource := func(in ssa.Instruction) bool {
+		if kind, call := isGetPut(in); call != nil && kind == "Get" && isPoolValue(call.Args[0]) {
+			return true
+		}
+		if call, ok := in.(*ssa.Call); ok {
+			if g := an.StaticCallee(&call.Call); g != nil && raw[g] != nil && isPtrToNamed(call.Type(), a.ContextT) {
+				return true
+			}
+		}
+		return false
+	}
+	for changed := true; changed; {
+		changed = false
+		for _, f := range c.libFuncs() {
+			if raw[f] != nil || len(f.Blocks) == 0 {
+				continue
+			}
+			an.AllInstrs(f, func(in ssa.Instruction) {
+				if raw[f] != nil || !isSource(in) {
+					return
+				}
+				got := an.AP(in.(ssa.Value))
+				path := (&an.Query{
+					Target: func(t ssa.Instruction) bool {
+						r, ok := t.(*ssa.Return)
+						if !ok {
+							return false
+						}
+						for _, v := range r.Results {
+							if an.AP(v) == got {
+								return true
+							}
+						}
+						return false
+					},
+					Block: resetBlock(got),
+				}).Search(an.After(in))
+				if path != nil {
+					raw[f] = path
+					changed = true
+				}
+			})
+		}
+	}
+	callersOf := map[*ssa.Function][]*ssa.Function{}
+	for _, f := range c.libFuncs() {
+		an.AllInstrs(f, func(in ssa.Instruction) {
+			if call := an.CallOf(in); call != nil {
+				if g := an.StaticCallee(call); g != nil {
+					callersOf[g] = append(callersOf[g], f)
+				}
+			}
+		})
+	}
+	for _, in := range getSites {
+		f := in.Parent()
+		// exposed: some chain of raw functions starting here ends in an entry point
+		var exposed *ssa.Function
+		seen := map[*ssa.Function]bool{}
+		var walk func(g *ssa.Function)
+		walk = func(g *ssa.Function) {
+			if seen[g] || raw[g] == nil || exposed != nil {
+				return
+			}
+			seen[g] = true
+			if isEntryPoint(g) || !hasModuleCaller(c, g) {
+				exposed = g
+				return
+			}
+			for _, caller := range callersOf[g] {
+				walk(caller)
+			}
+		}
+		walk(f)
+		o := c.R.Add(rule+"b", c.fk(f), "get-then-reset", c.pos(in), exposed == nil, ifelse(exposed == nil, "every path from Get to the package boundary resets every field of the value", "a pooled context can be returned by "+c.fk(exposed)+" without a complete reset: a request starts with another request's parameters"))
+		if exposed != nil {
+			o.Path = c.P.PathString(raw[exposed])
+		}
+	}
+	// (e) no use after release: once a context went back to the pool another goroutine may own it
+	releases := map[*ssa.Function]map[int]bool{}
+	var releaseEventAny func(in ssa.Instruction) (ssa.Value, bool)
+	releaseEvent := func(in ssa.Instruction) (ssa.Value, bool) {
+		if _, isDefer := in.(*ssa.Defer); isDefer {
+			return nil, false
+		}
+		return releaseEventAny(in)
+	}
+	releaseEventAny = func(in ssa.Instruction) (ssa.Value, bool) {
+		if kind, call := isGetPut(in); call != nil && kind == "Put" && isPoolValue(call.Args[0]) {
+			return putArg(in), true
+		}
+		if call := an.CallOf(in); call != nil {
+			if g := an.StaticCallee(call); g != nil {
+				for ai, arg := range an.CallArgs(call) {
+					if releases[g][ai] {
+						return arg, true
+					}
+				}
+			}
+		}
+		return nil, false
+	}
+	for changed := true; changed; {
+		changed = false
+		for _, f := range c.libFuncs() {
+			an.AllInstrs(f, func(in ssa.Instruction) {
+				v, ok := releaseEventAny(in)
 				if !ok {
+					return
+				}
+				for pi, par := range f.Params {
+					if an.AP(par) == an.AP(v) && !releases[f][pi] {
+						if releases[f] == nil {
+							releases[f] = map[int]bool{}
+						}
+						releases[f][pi] = true
+						changed = true
+					}
+				}
+			})
+		}
+	}
+	for _, f := range c.libFuncs() {
+		an.AllInstrs(f, func(in ssa.Instruction) {
+			v, ok := releaseEvent(in)
+			if !ok {
+				return
+			}
+			vap := an.AP(v)
+			// released at most once: no second release of the same context on any path (a deferred one runs at exit)
+			deferredToo := false
+			an.AllInstrs(f, func(d ssa.Instruction) {
+				if _, isDefer := d.(*ssa.Defer); isDefer {
+					if dv, ok := releaseEventAny(d); ok && an.AP(dv) == vap {
+						deferredToo = true
+					}
+				}
+			})
+			twice := (&an.Query{Target: func(t ssa.Instruction) bool {
+				if t == in {
 					return false
 				}
-				g := an.StaticCallee(&call.Call)
-				if g == nil {
+				if _, isRD := t.(*ssa.RunDefers); isRD && deferredToo {
+					return true
+				}
+				tv, ok := releaseEvent(t)
+				return ok && an.AP(tv) == vap
+			}}).Search(an.After(in))
+			o2 := c.R.Add(rule+"e", c.fk(f), "release:"+an.CalleeName(an.CallOf(in))+"/at-most-once", c.pos(in), twice == nil, ifelse(twice == nil, "the context is released once", "the context is put back into the pool twice on one path (here and again later, possibly by a deferred call): two concurrent requests then receive the same context"))
+			if twice != nil {
+				o2.Path = c.P.PathString(twice)
+			}
+			path := (&an.Query{Target: func(t ssa.Instruction) bool {
+				if t == in {
 					return false
 				}
-				for ai, arg := range an.CallArgs(&call.Call) {
-					if an.AP(arg) == got && clearsAll(g, ai) {
+				if _, isRet := t.(*ssa.Return); isRet {
+					return false
+				}
+				for _, op := range t.Operands(nil) {
+					if *op == nil {
+						continue
+					}
+					if *op == v || (isPtrToNamed((*op).Type(), a.ContextT) && an.AP(*op) == vap) {
 						return true
 					}
 				}
 				return false
-			},
-		}).Search(an.After(in))
-		o := c.R.Add(rule+"b", c.fk(newCtx), "get-then-reset", c.pos(in), path == nil, ifelse(path == nil, "every path from Get to return resets every field of the value", "a pooled context can be returned without a complete reset: a request starts with another request's parameters"))
-		if path != nil {
-			o.Path = c.P.PathString(path)
-		}
-	})
+			}}).Search(an.After(in))
+			o := c.R.Add(rule+"e", c.fk(f), "release:"+an.CalleeName(an.CallOf(in))+"/no-use-after", c.pos(in), path == nil, ifelse(path == nil, "nothing touches the context once it is back in the pool", "the context is touched after it was put back into the pool: a concurrent request that already took it from the pool loses its state (or races on it)"))
+			if path != nil {
+				o.Path = c.P.PathString(path)
+			}
+		})
+	}
 	for _, fn := range allFields {
 		okF := cleared[reset][0][fn]
 		var pos = c.P.Pos(reset.Pos())
@@ -555,6 +762,11 @@ func rulePool(c *Ctx, rule string) {
 		})
 		// released on the normal path
 		hasDestroy := len(an.Calls(f, func(name string, _ *ssa.CallCommon) bool { return name == an.FuncKey(destroy) })) > 0
+		an.AllInstrs(f, func(in ssa.Instruction) {
+			if v, ok := releaseEventAny(in); ok && an.AP(v) == an.AP(ctxVal) {
+				hasDestroy = true // released by a callee
+			}
+		})
 		c.R.Add(rule+"d", k, "destroy:present", c.P.Pos(f.Pos()), hasDestroy, ifelse(hasDestroy, "the context is released", "the context is never released (pool not reused; harmless but listed)"))
 		// no escape: the context value is only passed to calls, never stored
 		escapes := ""
@@ -809,4 +1021,122 @@ func isPtrToNamed(t types.Type, n *types.Named) bool {
 	}
 	x, ok := types.Unalias(p.Elem()).(*types.Named)
 	return ok && x.Origin() == n.Origin()
+}
+
+// mutatedStructTypes: module struct types some field of which is written through a value that is not a fresh
+// allocation of the writing function (i.e. the object is mutated after its construction).
+func mutatedStructTypes(c *Ctx) map[*types.Named]string {
+	out := map[*types.Named]string{}
+	for _, f := range c.libFuncs() {
+		an.AllInstrs(f, func(in ssa.Instruction) {
+			var target ssa.Value
+			switch x := in.(type) {
+			case *ssa.Store:
+				target = x.Addr
+			case *ssa.MapUpdate:
+				target = x.Map
+			}
+			if target == nil {
+				return
+			}
+			for {
+				if ia, ok := target.(*ssa.IndexAddr); ok {
+					target = ia.X
+					continue
+				}
+				if u, ok := target.(*ssa.UnOp); ok {
+					target = u.X
+					continue
+				}
+				break
+			}
+			fa, ok := target.(*ssa.FieldAddr)
+			if !ok || strings.HasPrefix(an.AP(fa.X), "alloc:") {
+				return
+			}
+			if o := ownerOf(fa); o != nil {
+				if _, had := out[o]; !had {
+					out[o] = c.pos(in)
+				}
+			}
+		})
+	}
+	return out
+}
+
+// ruleClosuresShareNothing is C07.R2d: a configuration closure (an Option) can be applied to any number of
+// instances; what it stores into the instance it configures must not be a mutable object that was allocated once,
+// outside the closure, when the Option value was made.
+func ruleClosuresShareNothing(c *Ctx, rule string) {
+	c.R.Rule(c.R.Property+"."+rule, 3, "configuration closures build fresh state per instance: nothing mutable allocated with the closure is stored into the instances it is applied to")
+	mutated := mutatedStructTypes(c)
+	for _, p := range c.libFuncs() {
+		an.AllInstrs(p, func(in ssa.Instruction) {
+			mc, ok := in.(*ssa.MakeClosure)
+			if !ok {
+				return
+			}
+			fn, ok := mc.Fn.(*ssa.Function)
+			if !ok {
+				return
+			}
+			fn = an.Origin(fn)
+			for i, fv := range fn.FreeVars {
+				if i >= len(mc.Bindings) {
+					continue
+				}
+				// is (a load of) the free variable stored into a field reachable from a parameter of the closure?
+				var site ssa.Instruction
+				for _, r := range *fv.Referrers() {
+					ld, ok := r.(*ssa.UnOp)
+					if !ok {
+						continue
+					}
+					for _, rr := range *ld.Referrers() {
+						if st, ok := rr.(*ssa.Store); ok && st.Val == ssa.Value(ld) {
+							if fa, ok := st.Addr.(*ssa.FieldAddr); ok && strings.HasPrefix(an.AP(fa.X), "p:") {
+								site = st
+							}
+						}
+					}
+				}
+				if site == nil {
+					continue
+				}
+				// what does the captured cell hold?
+				shared := ""
+				if cell, ok := mc.Bindings[i].(*ssa.Alloc); ok {
+					for _, r := range *cell.Referrers() {
+						st, ok := r.(*ssa.Store)
+						if !ok || st.Addr != ssa.Value(cell) {
+							continue
+						}
+						if al, ok := st.Val.(*ssa.Alloc); ok {
+							if n, ok := types.Unalias(al.Type().(*types.Pointer).Elem()).(*types.Named); ok {
+								if where, isMut := mutated[n.Origin()]; isMut {
+									shared = fmt.Sprintf("a %s allocated at %s, mutated after construction (%s)", n.Obj().Name(), c.pos(al), where)
+								}
+							}
+						}
+					}
+				}
+				c.R.Add(rule, c.fk(p), "closure-stores:"+fv.Name(), c.pos(site), shared == "", ifelse(shared == "", "the stored value is a parameter of the constructor or built inside the closure", "every instance configured with this closure receives the same object — "+shared+": instances built from one Option value share mutable state"))
+			}
+		})
+	}
+}
+
+
+// rulePoolReleaseOnce re-exports the pool typestate obligations (C07.R3 d, e) under another property: a context that
+// is released twice or touched after its release is shared by two concurrent requests.
+func rulePoolReleaseOnce(c *Ctx, rule string) {
+	sub := an.NewReport(c.R.Property)
+	cc := &Ctx{P: c.P, A: c.A, R: sub, O: c.O}
+	rulePool(cc, "X")
+	c.R.Rule(c.R.Property+"."+rule, 3, "a request's context is its own: released exactly once, never used after the release")
+	for _, o := range sub.Obls {
+		if strings.HasSuffix(o.Rule, ".Xd") || strings.HasSuffix(o.Rule, ".Xe") {
+			c.R.Add(rule, o.Func, o.Construct, o.At, o.OK, o.Msg)
+		}
+	}
 }
